@@ -32,6 +32,8 @@ _ALIGNED = [
     "forall(range(0, len(self.scheduler.samplers)), lambda j: type(self.scheduler.samplers[j]).__name__ in self.samplers_id_table)",
     "forall(lambda a, b: implies(a in self.samplers_id_table and b in self.samplers_id_table and "
     "self.samplers_id_table[a] == self.samplers_id_table[b], a == b))",
+    # the real data has one column per coordinate (set by the constructor: D = real_data.shape[1])
+    "self.real_data.shape[1] == self.D",
     # every stored label is an id of the table
     "forall(range(0, self.n_sampled_params), lambda i: exists(lambda a: a in self.samplers_id_table and "
     "self.samplers_id_table[a] == self.method_samp[i]))",
@@ -67,11 +69,6 @@ contract(f"{SB}::BaseScheduler.start_session", params={}, props=["C11"], abstrac
          ensures=["ghost.open_sessions == old(ghost.open_sessions) + 1"], modifies=["ghost.open_sessions"])
 contract(f"{SB}::BaseScheduler.end_session", params={}, props=["C11"], abstract=True,
          ensures=["ghost.open_sessions == old(ghost.open_sessions) - 1"], modifies=["ghost.open_sessions"])
-
-contract(f"{LB}::BaseLoss.compute_loss", abstract=True,
-         params={"sim_data_ensemble": "arr3[real]", "real_data": "arr2[real]"}, returns="real",
-         may_raise=["Exception"], props=["C02", "C11"], ensures=[], modifies=[],
-         notes="abstract loss: may raise; does not write its arguments (proved per built-in loss in C08)")
 
 # BaseSampler.sample is proved in c12_dedup.py; here it may additionally raise (C11)
 # ---- Calibrator methods ------------------------------------------------------------------------------------
